@@ -732,6 +732,14 @@ func genValidAuthn(t *rapid.T, spec world.Spec, sp int, host string) spsim.Authn
 	return r
 }
 
+// maybePassive turns one request in six into a passive one (IsPassive true / 1). An IdP may answer those with NoPassive or go
+// on to the login page, so the acceptance check (C07) does not draw them; every other statement holds for them too.
+func maybePassive(t *rapid.T, r *spsim.AuthnReq) {
+	if rapid.IntRange(0, 5).Draw(t, "passive-true") == 0 {
+		r.IsPassive = rapid.SampledFrom([]string{"true", "1"}).Draw(t, "passive-form")
+	}
+}
+
 // genTransport draws a transport in Go-canonical percent-encoding (what the IdP is known to accept).
 func genTransport(t *rapid.T, binding string) spsim.Transport {
 	tr := spsim.Transport{Binding: binding, Plus: true, Encoding: A, RelayState: rapid.SampledFrom(relayStates).Draw(t, "relaystate")}
